@@ -411,6 +411,8 @@ class Inliner:
         self.methods = {}       # (class name, method name) -> FunctionDef (private methods)
         self.local_helpers = {}  # name -> nested FunctionDef (set while a local closure is being inlined)
         self.static_methods = {}  # (class name, method name) -> (FunctionDef, 'staticmethod' | 'classmethod')
+        self.mangled = {}
+        self.allow_mangled = False
         self.bases = {}
         for n in tree.body:
             if isinstance(n, ast.FunctionDef) and n.name.startswith('_') and not n.name.startswith('__'):
@@ -420,12 +422,14 @@ class Inliner:
                 for m in n.body:
                     if isinstance(m, ast.FunctionDef) and m.name.startswith('_') and not m.name.startswith('__') and not m.decorator_list:
                         self.methods[(n.name, m.name)] = m
+                    elif isinstance(m, ast.FunctionDef) and m.name.startswith('__') and not m.name.endswith('__') and not m.decorator_list:
+                        self.mangled[(n.name, m.name)] = m      # name-mangled private methods: only substituted where a rule needs to see through them (with headers)
                     elif isinstance(m, ast.FunctionDef) and (m.name.startswith('_') or n.name.startswith('_')) and not m.name.startswith('__') and len(m.decorator_list) == 1 \
                             and isinstance(m.decorator_list[0], ast.Name) and m.decorator_list[0].id in ('staticmethod', 'classmethod'):
                         self.static_methods[(n.name, m.name)] = (m, m.decorator_list[0].id)
 
     def run(self):
-        if not (self.helpers or self.methods or self.static_methods):
+        if not (self.helpers or self.methods or self.static_methods or self.mangled):
             return
         for n in self.tree.body:
             if isinstance(n, ast.FunctionDef):
@@ -453,6 +457,8 @@ class Inliner:
             return None, False
         if isinstance(f, ast.Name) and f.id in self.helpers:
             return self.helpers[f.id], False
+        if self.allow_mangled and cls is not None and isinstance(f, ast.Attribute) and isinstance(f.value, ast.Name) and f.value.id == 'self' and (cls, f.attr) in self.mangled:
+            return self.mangled[(cls, f.attr)], True
         if cls is not None and isinstance(f, ast.Attribute) and isinstance(f.value, ast.Name) and f.value.id == 'self':
             for c_ in self.mro(cls):
                 # a private method inherited from a base class of the same module - unless a class in between overrides it
@@ -603,6 +609,16 @@ class Inliner:
                     out.extend(self.process_block(pre, cls, depth + 1, owner))
             elif isinstance(s, (ast.While, ast.Assert)):
                 self.rewrite_expr(s.test, cls, depth, owner, no_hoist=True)
+            elif isinstance(s, ast.With) and len(s.items) == 1 and isinstance(s.items[0].context_expr, ast.Call):
+                # with self.__helper(..): the statements of the helper run before the block is entered, its value is the manager
+                self.allow_mangled = True
+                try:
+                    pre, newv = self.rewrite_expr(s.items[0].context_expr, cls, depth, owner)
+                finally:
+                    self.allow_mangled = False
+                if pre or newv is not s.items[0].context_expr:
+                    s.items[0].context_expr = newv
+                    out.extend(self.process_block(pre, cls, depth + 1, owner))
             elif isinstance(s, ast.For):
                 pre, newv = self.rewrite_expr(s.iter, cls, depth, owner)
                 if pre or newv is not s.iter:
